@@ -64,6 +64,7 @@ func recoveryAdapter(t *testing.T, h *H) {
 		var queries []string
 		var answers []string
 		var direct []string
+		var notRecovered []string
 		runBubble(t, func(t *testing.T) {
 			start := time.Now()
 			a := adapter.VerifNewSessionAwareAdapterCreator(W, P)(nullStore{}, jsonparser.NewCreator(0, stdjson.New()))
@@ -208,6 +209,19 @@ func recoveryAdapter(t *testing.T, h *H) {
 								direct = append(direct, fmt.Sprintf("restore %s: replayed %v, missed since the offset %v", q, missed, want))
 							}
 						}
+						if !ok && off > 0 {
+							// direct predicate: the session was persisted less than W ago (its latest disconnect counts) and the offset
+							// is a packet younger than W (so it cannot have expired from the log): recovery must succeed
+							var last *sess
+							for k := range sessions {
+								if sessions[k].pid == pid {
+									last = &sessions[k]
+								}
+							}
+							if last != nil && now()-last.at < W && now()-pks[off-1].at < W {
+								notRecovered = append(notRecovered, fmt.Sprintf("restore %s: session p%d persisted %v ago, offset packet %d emitted %v ago, window %v", q, pid, now()-last.at, off, now()-pks[off-1].at, W))
+							}
+						}
 						queries = append(queries, q)
 						answers = append(answers, ans)
 					}
@@ -244,6 +258,9 @@ func recoveryAdapter(t *testing.T, h *H) {
 		}
 		for _, d := range direct {
 			h.Violation("C08", "a session is reported recovered with a gap (or with packets it did not miss)", "session-aware adapter history: "+opsS, d)
+		}
+		for _, d := range notRecovered {
+			h.Violation("C08", "a client that reconnects within the window with its session id and offset is not recovered", "session-aware adapter history: "+opsS, d)
 		}
 		h.Dist("adapter.histories")
 	}
